@@ -215,50 +215,62 @@ def sample_member(t, rng, sigma, budget):
     return []
 
 
+
+
 # --------------------------------------------------------------------------
 # running the implementation, building traces, validating with TLC
 # --------------------------------------------------------------------------
-def run_impl(build, sc, label, cases, rng):
-    """cases: list of (sre, subject).  Returns list of trace events (Call), one per case, in order."""
+NORESULT = {"err": 2, "m": 0, "mf": 0, "mm": [], "sf": 0, "ss": []}
+
+
+def run_impl(build, sc, label, cases, seed, timeout=600):
+    """cases: list of (sre, subject).  One chibi process; returns one Call event per case (same order).
+       A case without an answer (crash, abort, timeout) is recorded as err=2 (no result)."""
+    rng = __import__("random").Random(seed)
     groups = {}
     for i, (t, s) in enumerate(cases):
         groups.setdefault(json.dumps(t), []).append(i)
     inp = sc.file("cases_%s.scm" % label)
+    texts = {}
     with open(inp, "w") as f:
         for key, idxs in groups.items():
             t = cases[idxs[0]][0]
-            f.write("(%s" % sexp(t, rng))
+            texts[key] = sexp(t, rng)
+            f.write("(%s" % texts[key])
             for i in idxs:
                 f.write(" (%d . %s)" % (i, str_lit(cases[i][1])))
             f.write(")\n")
-    p = build.run([DRV, inp], timeout=900)
+    try:
+        p = build.run([DRV, inp], timeout=timeout)
+        out, rc, err = p.stdout, p.returncode, p.stderr
+    except __import__("subprocess").TimeoutExpired as ex:
+        out, rc, err = ex.stdout or b"", -9, b"timeout"
     res = {}
-    for line in p.stdout.decode(errors="replace").splitlines():
+    for line in out.decode(errors="replace").splitlines():
         line = line.strip()
-        if line.startswith("{"):
+        if line.startswith("{") and line.endswith("}"):
             try:
                 o = json.loads(line)
                 res[o["id"]] = o
             except ValueError:
                 pass
-    if p.returncode != 0 and not res:
-        raise Broken("regexdrv failed on %s: rc=%s %s" % (label, p.returncode, p.stderr.decode(errors="replace")[-1500:]))
+    if not res:
+        raise Broken("regexdrv produced nothing on %s: rc=%s %s" % (label, rc, err.decode(errors="replace")[-1500:]))
     evs = []
     for i, (t, s) in enumerate(cases):
-        o = res.get(i)
-        if o is None:      # crash / abort before this case was answered: recorded as an error outcome of the call
-            o = {"id": i, "err": 1, "m": 0, "mf": 0, "mm": [], "sf": 0, "ss": [], "lost": 1}
+        o = res.get(i, NORESULT)
         ev = {"e": "Call", "id": i, "sre": t, "s": s}
         ev.update({k: o[k] for k in ("err", "m", "mf", "mm", "sf", "ss")})
+        ev["datum"] = texts[json.dumps(t)]          # not read by the spec: the SRE as chibi saw it, for reports
         evs.append(ev)
-    return evs, inp, p.returncode
+    return evs
 
 
-def validate(sc, label, evs):
-    """TLC decides.  Returns (set of rejected ids -> clauses, TLCResult)."""
+def validate(sc, label, evs, timeout=1500):
+    """TLC decides.  evs carry ids unique within the list.  Returns {id: [failed clauses]}, TLCResult."""
     tr = sc.file("trace_%s.ndjson" % label)
     vlib.write_ndjson(tr, evs + [{"e": "End"}])
-    r = vlib.run_tlc("RegexTrace.tla", "RegexTrace.cfg", sc.path, env={"TRACE": tr}, workers=1, timeout=1500, heap="3g")
+    r = vlib.run_tlc("RegexTrace.tla", "RegexTrace.cfg", sc.path, env={"TRACE": tr}, workers=1, timeout=timeout, heap="3g")
     if r.error and "Postcondition" not in r.error and "TRACE_REJECTED_AT" not in r.out:
         raise Broken("RegexTrace failed on %s: %s" % (label, r.error[:2000]))
     rej = {}
@@ -267,11 +279,413 @@ def validate(sc, label, evs):
     m = re.search(r'"TRACE_REJECTED_AT", (\d+), (\d+)', r.out)
     n = len(evs) + 1
     if m:
-        d = int(m.group(1))
-        if not (d - 1 == n - 1 and rej):      # every Call was consumed, only End was refused
-            raise Broken("RegexTrace stopped at %d of %d on %s without a per-call verdict:\n%s" % (d, n, label, r.out[-1500:]))
-    elif not r.ok:
+        if not (int(m.group(1)) == n and rej):      # every Call was consumed and judged, only End was refused
+            raise Broken("RegexTrace stopped at %s of %d on %s without a per-call verdict:\n%s" % (m.group(1), n, label, r.out[-1500:]))
+    elif not r.ok or r.distinct != n + 1:
         raise Broken("RegexTrace: unexpected TLC outcome on %s: %s\n%s" % (label, r.summary(), r.out[-1500:]))
     elif rej:
         raise Broken("RegexTrace accepted a trace with rejected calls (%s)" % label)
+    if any("malformed-case" in c for c in rej.values()):
+        raise Broken("generator emitted a case outside the domain (%s): %s" % (label, [evs_by_id(evs, i) for i in list(rej)[:3]]))
     return rej, r
+
+
+def evs_by_id(evs, i):
+    for e in evs:
+        if e["id"] == i:
+            return e
+
+
+def execute(build, sc, label, cases, seed, jobs_impl=12, jobs_tlc=8, per=2500):
+    """shard, run on chibi, validate with TLC.  Returns (events with global ids, {id: clauses})."""
+    shards = [(k, cases[i:i + per]) for k, i in enumerate(range(0, len(cases), per))]
+    ran = vlib.parallel(lambda sh: run_impl(build, sc, "%s_%d" % (label, sh[0]), sh[1], seed * 1000 + sh[0]), shards, jobs=jobs_impl)
+    evs = []
+    for (k, _), part in zip(shards, ran):
+        for e in part:
+            e["id"] = len(evs)
+            evs.append(e)
+    vshards = [(k, evs[i:i + 4 * per]) for k, i in enumerate(range(0, len(evs), 4 * per))]
+    rej = {}
+    for part in vlib.parallel(lambda sh: validate(sc, "%s_v%d" % (label, sh[0]), sh[1])[0], vshards, jobs=jobs_tlc):
+        rej.update(part)
+    return evs, rej
+
+
+# --------------------------------------------------------------------------
+# rejected results: shrink with TLC in the loop, structural key
+# --------------------------------------------------------------------------
+ATOMS = ("lit", "set", "nset", "range", "any", "eps", "empty", "bol", "eol")
+EPS = ["eps"]
+
+
+def fclass(clauses):
+    if "error-raised" in clauses:
+        return "error"
+    if any(c.endswith("disagrees") for c in clauses):
+        return "existence"
+    return "spans"
+
+
+def children(t):
+    k = t[0]
+    if k in ("seq", "or"):
+        return [1, 2]
+    if k in ("star", "plus", "opt", "sub", "nocase"):
+        return [1]
+    if k == "rep":
+        return [3]
+    return []
+
+
+def reductions(t):
+    """one-step simplifications of an SRE (each strictly smaller, or an atom made plainer)"""
+    out = []
+    k = t[0]
+    for i in children(t):
+        out.append(t[i])                           # a node replaced by its operand
+    if k in ATOMS:
+        if k != "eps":
+            out.append(EPS)
+        if k == "set" and len(t[1]) > 1:
+            out += [["set", [c for c in t[1] if c != d]] for d in t[1]]
+        if k == "range":
+            out.append(["lit", t[1]])
+            if t[2] - t[1] <= 3:
+                out.append(["set", list(range(t[1], t[2] + 1))])
+        if k in ("set", "nset") and len(t[1]) == 1 and k == "set":
+            out.append(["lit", t[1][0]])
+    else:
+        out.append(EPS)
+        if k == "rep" and (t[1], t[2]) not in ((0, 0), (1, 1)):
+            out += [["rep", 1, 1, t[3]], ["star", t[3]], ["opt", t[3]]]
+        if k == "plus":
+            out.append(["star", t[1]])
+    for i in children(t):
+        for c in reductions(t[i]):
+            n = list(t)
+            n[i] = c
+            out.append(n)
+    return out
+
+
+def shrink_candidates(t, s):
+    seen, out = set(), []
+    for c in reductions(t):
+        out.append((c, s))
+    for i in range(len(s)):
+        out.append((t, s[:i] + s[i + 1:]))
+    res = []
+    for c in out:
+        key = json.dumps(c)
+        if key not in seen:
+            seen.add(key)
+            res.append(c)
+    return res
+
+
+def weight(case):
+    return (size(case[0]) + len(case[1]), json.dumps(case))
+
+
+def shrink(build, sc, ev, cls, tagname, rounds=12):
+    """greedy minimisation; a candidate is kept only if chibi's recorded result for it is again rejected by TLC
+       with a failure of the same class"""
+    cur = (ev["sre"], ev["s"])
+    last = ev
+    for k in range(rounds):
+        cands = sorted(shrink_candidates(*cur), key=weight)[:400]
+        if not cands:
+            break
+        evs = run_impl(build, sc, "shr_%s_%d" % (tagname, k), cands, 1)
+        rej, _ = validate_soft(sc, "shr_%s_%d" % (tagname, k), evs)
+        nxt = None
+        for e in evs:
+            if e["id"] in rej and fclass(rej[e["id"]]) == cls:
+                nxt = e
+                break
+        if nxt is None:
+            break
+        cur, last = (nxt["sre"], nxt["s"]), dict(nxt, clauses=rej[nxt["id"]])
+    return last
+
+
+def validate_soft(sc, label, evs):
+    """like validate, but malformed candidates (produced by shrinking) are simply not counted as rejected"""
+    tr = sc.file("trace_%s.ndjson" % label)
+    vlib.write_ndjson(tr, evs + [{"e": "End"}])
+    r = vlib.run_tlc("RegexTrace.tla", "RegexTrace.cfg", sc.path, env={"TRACE": tr}, workers=1, timeout=600, heap="3g")
+    if r.error and "Postcondition" not in r.error and "TRACE_REJECTED_AT" not in r.out:
+        raise Broken("RegexTrace failed on %s: %s" % (label, r.error[:2000]))
+    rej = {}
+    for m in re.finditer(r'<<"REJECT",\s*(\d+),\s*(\d+)>>', r.out):
+        cl = [c for b, c in CLAUSES if int(m.group(2)) & b]
+        if "malformed-case" not in cl:
+            rej[int(m.group(1))] = cl
+    return rej, r
+
+
+def shape_match(p, t):
+    """does the shrunk pattern p occur at the root of t?  eps in the pattern = anything"""
+    if p[0] == "eps":
+        return True
+    if p[0] != t[0]:
+        return False
+    if p[0] == "rep" and (p[1], p[2]) != (t[1], t[2]):
+        return False
+    return all(shape_match(p[i], t[i]) for i in children(p))
+
+
+def contains(p, t):
+    return shape_match(p, t) or any(contains(p, t[i]) for i in children(t))
+
+
+def signature(t):
+    k = t[0]
+    if k in ("seq", "or"):
+        return "%s(%s,%s)" % (k, signature(t[1]), signature(t[2]))
+    if k in ("star", "plus", "opt", "sub", "nocase"):
+        return "%s(%s)" % (k, signature(t[1]))
+    if k == "rep":
+        return "rep%d_%s(%s)" % (t[1], "inf" if t[2] == -1 else t[2], signature(t[3]))
+    return k
+
+
+def report_rejections(chk, build, sc, evs, rej, max_shrinks=6):
+    """group the rejected results by structural key and report each key once"""
+    todo = sorted(rej, key=lambda i: weight((evs[i]["sre"], evs[i]["s"])))
+    found = []            # (key, cls, minimal event, [ids])
+    shrinks = 0
+    for i in todo:
+        e, cls = evs[i], fclass(rej[i])
+        hit = None
+        for f in found:
+            if f[1] == cls and contains(f[2]["sre"], e["sre"]):
+                hit = f
+                break
+        if hit:
+            hit[3].append(i)
+            continue
+        if shrinks >= max_shrinks:
+            key, m = "%s:unshrunk" % cls, dict(e, clauses=rej[i])
+        else:
+            shrinks += 1
+            m = shrink(build, sc, e, cls, "f%d" % shrinks)
+            if "clauses" not in m:          # nothing smaller fails: confirm the original once more (flakiness guard)
+                again = run_impl(build, sc, "confirm_%d" % shrinks, [(e["sre"], e["s"])], 1)
+                r2, _ = validate_soft(sc, "confirm_%d" % shrinks, again)
+                if 0 not in r2:
+                    raise Broken("rejection of %s not reproducible on a second run" % json.dumps(e)[:400])
+                m = dict(again[0], clauses=r2[0])
+            key = "%s:%s" % (cls, signature(m["sre"]))
+        for f in found:
+            if f[0] == key:
+                f[3].append(i)
+                break
+        else:
+            found.append((key, cls, m, [i]))
+    for key, cls, m, ids in found:
+        ex = [dict(evs[i], clauses=rej[i]) for i in ids[:5]]
+        msg = ("%d recorded results rejected by Regex.tla; minimal: sre=%s subject=%s clauses=%s recorded m=%s matches=%s search=%s err=%s"
+               % (len(ids), m.get("datum"), json.dumps("".join(map(chr, m["s"]))), m.get("clauses"), m["m"], m["mm"] if m["mf"] else "#f",
+                  m["ss"] if m["sf"] else "#f", m["err"]))
+        chk.report(key, msg, "%s.json" % re.sub(r"[^A-Za-z0-9_+-]", "_", key),
+                   {"key": key, "class": cls, "minimal": m, "count": len(ids), "examples": ex,
+                    "how": "./check C20 --replay <this file> re-runs the minimal case on a fresh build and lets TLC judge it"})
+    return found
+
+
+# --------------------------------------------------------------------------
+# the check
+# --------------------------------------------------------------------------
+MC_QUICK = ["A", "A1", "B", "B1", "C", "C1"]
+MC_THOROUGH = ["AT", "A3T", "A1T", "BT", "CT"]
+INVS = ["TwoFormulations", "SearchIsContextMatch", "SearchFromMatch", "GroupsWF", "ReportSound", "ReportRejectsNonMatch"]
+ASCII4 = [97, 98, 99, NL]
+CASE4 = [97, 65, 98, 66]
+UNI = [955, 923, 233, 201, 1076, 1044, 26085, 128512, NL]      # lambda/Lambda, e-acute/E-acute, de/De, a CJK char, an emoji, newline
+
+
+def mc_job(sc, name):
+    r = vlib.run_tlc("RegexMC.tla", "RegexMC_%s.cfg" % name, sc.path, workers=4 if name in ("A", "AT", "A3T") else 2,
+                     timeout=1500, heap="6g")
+    vlib.require_tlc_ok(r, "RegexMC_" + name)
+    if r.violated:
+        raise Broken("Regex.tla fails its own model check %s: invariant %s\n%s" % (name, r.violated, "\n".join(r.trace)[:1500]))
+    if r.distinct < 1000:
+        raise Broken("RegexMC_%s explored only %d states" % (name, r.distinct))
+    return ("mc", name, r)
+
+
+def add_members(cases, sigma, rng, per_sre=2, maxlen=12):
+    """more subjects for TLC-simulated SREs: strings sampled from the SRE, embedded in random context"""
+    seen, out = set(), []
+    for t, s in cases:
+        k = json.dumps([t, s])
+        if k in seen:
+            continue
+        seen.add(k)
+        out.append((t, s))
+        for _ in range(per_sre):
+            m = sample_member(t, rng, sigma, maxlen)
+            pre = [rng.choice(sigma) for _ in range(rng.randrange(3))] if rng.random() < 0.5 else []
+            post = [rng.choice(sigma) for _ in range(rng.randrange(3))] if rng.random() < 0.5 else []
+            s2 = (pre + m + post)[:maxlen]
+            k = json.dumps([t, s2])
+            if k not in seen:
+                seen.add(k)
+                out.append((t, s2))
+    return out
+
+
+def corrupt(ev, how):
+    e = json.loads(json.dumps(ev))
+    n = len(e["s"])
+    if how == 0:
+        e["m"] = 1 - e["m"]
+    elif how == 1:
+        e["sf"] = 1 - e["sf"]
+        if e["sf"] == 1:
+            e["ss"] = [[0, 0]] + e["ss"][1:] if e["ss"] else [[0, 0]] * 1
+    elif how == 2 and e["sf"] == 1:
+        e["ss"][0] = [e["ss"][0][0], n + 1]
+    elif how == 3 and e["sf"] == 1 and len(e["ss"]) > 1:
+        e["ss"][-1] = [e["ss"][0][1], e["ss"][0][1] + 1]
+    elif how == 4:
+        e["err"] = 1
+    else:
+        e["mf"] = 1 - e["mf"]
+        if e["mf"] == 1:
+            e["mm"] = [[0, n]]
+    return e
+
+
+def binding_selftest(sc, good):
+    """every corrupted copy of an accepted result must be rejected by TLC, the originals accepted"""
+    pick = good[:: max(1, len(good) // 120)][:120]
+    evs = []
+    for k, e in enumerate(pick):
+        evs.append(dict(corrupt(e, k % 6), id=len(evs)))
+    rej, _ = validate(sc, "selftest_bad", evs)
+    if len(rej) != len(evs):
+        miss = [e for e in evs if e["id"] not in rej][:3]
+        raise Broken("binding self-test: %d of %d corrupted results were accepted, e.g. %s" % (len(evs) - len(rej), len(evs), miss))
+    orig = [dict(e, id=k) for k, e in enumerate(pick)]
+    rej, _ = validate(sc, "selftest_good", orig)
+    if rej:
+        raise Broken("binding self-test: accepted results rejected on re-validation")
+    return len(evs)
+
+
+def run():
+    chk = vlib.Check("C20")
+    T = chk.thorough
+    with vlib.Scratch("c20") as sc:
+        build = vlib.build_repo(sc.sub("build"))
+        S = chk.seed
+        # ---- phase A: model checking of the specification and case generation by TLC, concurrently
+        jobs = [("mc", n) for n in (MC_THOROUGH if T else MC_QUICK)]
+        jobs += [("exh", "abc", [97, 98, 99], 5 if T else 4, 1, "full"),
+                 ("exh", "anchor", [97, NL], 3 if T else 4, 2 if T else 1, "anchor"),
+                 ("exh", "case", [97, 65, 98], 2 if T else 3, 2 if T else 1, "case"),
+                 ("exh", "ab2", [97, 98], 3 if T else 2, 2, "full"),
+                 ("sim", "ascii", ASCII4, 6000 if T else 700, 40, S),
+                 ("sim", "ascii2", ASCII4, 6000 if T else 500, 25, S + 1),
+                 ("sim", "case", CASE4, 4000 if T else 500, 35, S + 2),
+                 ("sim", "unicode", UNI, 4000 if T else 500, 35, S + 3)]
+
+        def phase_a(j):
+            if j[0] == "mc":
+                return mc_job(sc, j[1])
+            if j[0] == "exh":
+                cases, r = gen_exhaustive(sc, j[1], j[2], j[3], j[4], j[5])
+                return ("exh", j[1], cases, r)
+            return ("sim", j[1], gen_simulated(sc, j[1], j[2], j[3], j[4], j[5]), j[2])
+        fam = {}
+        for res in vlib.parallel(phase_a, jobs, jobs=len(jobs)):
+            if res[0] == "mc":
+                chk.add_mc("RegexMC_" + res[1], res[2])
+            elif res[0] == "exh":
+                fam["exh-" + res[1]] = [tuple(c) for c in res[2]]
+                chk.cov.setdefault("generator_states", {})["exh-" + res[1]] = res[3].distinct
+            else:
+                rng = __import__("random").Random(S * 7919 + len(fam))
+                fam["sim-" + res[1]] = add_members([tuple(c) for c in res[2]], res[3], rng)
+        chk.cov["mc_invariants"] = INVS + ["Laws (level-1 configurations)"]
+        chk.cov["exhaustive"] = True
+        # the depth-2 family is large: a seeded sample in the quick tier
+        if not T:
+            rng = __import__("random").Random(S)
+            fam["exh-ab2"] = rng.sample(fam["exh-ab2"], min(len(fam["exh-ab2"]), 15000))
+        # ---- phase B/C: run on the real chibi, TLC judges every recorded result
+        cases, origin = [], []
+        for name in sorted(fam):
+            for c in fam[name]:
+                cases.append(c)
+                origin.append(name)
+        evs, rej = execute(build, sc, "all", cases, S)
+        chk.cov["evaluations"] = len(evs)
+        chk.cov["traces_validated_against_impl"] = len(evs) - len(rej)
+        chk.cov["cases_per_family"] = {n: len(fam[n]) for n in sorted(fam)}
+        good = [e for e in evs if e["id"] not in rej]
+        # coverage accounting (measured on the recorded results; no verdict)
+        pos = [e for e in good if e["sf"] == 1 and e["sre"][0] not in ATOMS]
+        chk.cov["distinct_nontrivial"] = len(set(json.dumps([e["sre"], e["s"]]) for e in pos))
+        chk.cov["accepted_whole_matches"] = sum(1 for e in good if e["m"] == 1)
+        chk.cov["accepted_search_hits"] = sum(1 for e in good if e["sf"] == 1)
+        chk.cov["accepted_with_matched_group"] = sum(1 for e in good if e["sf"] == 1 and any(sp[0] >= 0 for sp in e["ss"][1:]))
+        chk.cov["accepted_with_unmatched_group"] = sum(1 for e in good if e["sf"] == 1 and any(sp[0] < 0 for sp in e["ss"][1:]))
+        chk.cov["distinct_sres"] = len(set(json.dumps(e["sre"]) for e in evs))
+        chk.cov["max_depth_subject_len"] = [max(depth(e["sre"]) for e in evs), max(len(e["s"]) for e in evs)]
+        ops = {}
+        for e in good:
+            for tg in tags(e["sre"]):
+                ops[tg] = ops.get(tg, 0) + 1
+        chk.cov["accepted_cases_per_operator"] = ops
+        need = ["lit", "set", "nset", "range", "any", "seq", "or", "star", "plus", "opt", "rep", "sub", "bol", "eol", "nocase", "eps", "empty"]
+        missing = [t for t in need if ops.get(t, 0) == 0]
+        if missing or chk.cov["accepted_with_matched_group"] < 50 or chk.cov["accepted_whole_matches"] < 500 or \
+           chk.cov["accepted_with_unmatched_group"] < 10 or chk.cov["max_depth_subject_len"][0] < 4:
+            raise Broken("vacuous run: operators never accepted %s, coverage %s" % (missing, {k: v for k, v in chk.cov.items() if k.startswith("accepted")}))
+        for e in (pos[:: max(1, len(pos) // 5)])[:5]:
+            chk.sample({"sre": e["datum"], "abstract": e["sre"], "subject": "".join(map(chr, e["s"])), "regexp-matches?": e["m"],
+                        "regexp-matches": e["mm"] if e["mf"] else False, "regexp-search": e["ss"] if e["sf"] else False})
+        chk.cov["binding_selftest_corruptions_rejected"] = binding_selftest(sc, good)
+        # ---- rejected results
+        if rej:
+            found = report_rejections(chk, build, sc, evs, rej)
+            chk.cov["rejected_results"] = {f[0]: len(f[3]) for f in found}
+        chk.cov["rule"] = ("a case = one (SRE, subject) pair: all SREs of depth<=1 over {a,b,c} x all subjects up to length 4 (5 thorough), anchor and case-folding "
+                           "families likewise over {a,newline} / {a,A,b}, depth-2 SREs over {a,b} (seeded sample in quick), all enumerated by TLC (RegexGen), plus "
+                           "TLC-simulated SREs up to depth 5 (RegexSim) with subjects up to length 12 over {a,b,c,newline}, {a,A,b,B} and a Unicode alphabet; "
+                           "distinct_nontrivial = distinct accepted pairs whose SRE has an operator and for which the implementation reported a search match "
+                           "(so that span and submatch clauses were exercised)")
+        chk.assumptions += ["case folding is specified for simple one-to-one case pairs only (ASCII, Latin-1, Greek, Cyrillic basic letters); subjects never contain characters of larger case classes",
+                            "complement classes inside w/nocase, (** m n) with m > n, and very large classes inside w/nocase (minutes of compile time) are not generated",
+                            "the abstract-SRE -> SRE-datum printer of checks/c20.py and the driver's span extraction are trusted (format conversion)",
+                            "no preference among ambiguous parses (leftmost-longest, which iteration a group reports) is demanded"]
+    return chk.finish()
+
+
+def depth(t):
+    c = children(t)
+    return (1 + max(depth(t[i]) for i in c)) if c else 0
+
+
+def replay(path):
+    d = json.load(open(path))
+    m = d["minimal"]
+    print("key      :", d["key"])
+    print("sre      :", m.get("datum"), "  abstract:", json.dumps(m["sre"]))
+    print("subject  :", json.dumps("".join(map(chr, m["s"]))))
+    print("recorded : err=%s regexp-matches?=%s regexp-matches=%s regexp-search=%s" % (m["err"], m["m"], m["mm"] if m["mf"] else "#f", m["ss"] if m["sf"] else "#f"))
+    print("rejected clauses at the time:", m.get("clauses"))
+    with vlib.Scratch("c20r") as sc:
+        build = vlib.build_repo(sc.sub("build"))
+        evs = run_impl(build, sc, "replay", [(m["sre"], m["s"])], 1)
+        rej, r = validate_soft(sc, "replay", evs)
+        e = evs[0]
+        print("now      : err=%s regexp-matches?=%s regexp-matches=%s regexp-search=%s  (datum %s)"
+              % (e["err"], e["m"], e["mm"] if e["mf"] else "#f", e["ss"] if e["sf"] else "#f", e["datum"]))
+        print("TLC verdict now:", "REJECTED " + str(rej[0]) if 0 in rej else "accepted")
+        return 1 if 0 in rej else 0
